@@ -2,7 +2,6 @@ package conc
 
 import (
 	"fmt"
-	"os"
 	"runtime"
 	"sort"
 	"strings"
@@ -844,8 +843,9 @@ func (l *rvnLane) worker(role int) {
 			// the two workers leave every slot's rendezvous together, then drift apart by their spin counts
 			atomic.AddInt32(&s.armed, 1)
 			for n := 0; atomic.LoadInt32(&s.armed) < 2; n++ {
-				if n > 64 && !rvnNoYield {
-					// the partner may sit in this P's run queue (just woken from the round mutex): let it run
+				if n > 64 {
+					// the partner may sit in this P's run queue (just woken from the round mutex): let it run. A pure spin
+					// here costs 3-4x the wall time on a loaded machine
 					runtime.Gosched()
 				}
 			}
@@ -932,8 +932,6 @@ func rvnJudge(c rvnCase, pre rvnModel, call, ret [2]int64, got rvnOutcome) (sig,
 	}
 	return "C37:restart-vs-notarized-block-not-atomic", "the outcome is that of neither sequential order: " + desc, allowed
 }
-
-var rvnNoYield bool
 
 const rvnBatch = 256
 
@@ -1062,11 +1060,7 @@ func (l *rvnLane) coordinate(e *env, rnd *mon.Rand, n int) {
 // the "every round operation returns" half of the property.
 func rvnFamily(run *mon.Run, lim *limiter, e *env, tier string, idx int, seed uint64) {
 	const lanes = 2
-	per := scale(tier, 12000, 400000)
-	if v := os.Getenv("RVN_PER"); v != "" {
-		fmt.Sscan(v, &per)
-	}
-	rvnNoYield = os.Getenv("RVN_SPIN") != ""
+	per := scale(tier, 6000, 400000)
 	var ls []*rvnLane
 	for i := 0; i < lanes; i++ {
 		l := &rvnLane{id: idx*lanes + i, counters: map[string]int64{}, distinct: map[string]bool{}, nviol: map[string]int{}}
@@ -1123,7 +1117,6 @@ func rvnFamily(run *mon.Run, lim *limiter, e *env, tier string, idx int, seed ui
 		return // the lanes' own tallies are not read: their goroutines may still be writing them
 	}
 	for _, l := range ls {
-		fmt.Printf("RVNRES lane %d violations %v counters %v\n", l.id, l.nviol, l.counters)
 		for k, v := range l.counters {
 			run.Count(k, v)
 		}
